@@ -122,4 +122,64 @@ theorem rbpT_eq (k : Option Nat) (pat : Q) (normalize : Bool) (L : List Nat) (T 
         simp
       rw [hm]
 
+/-! ### nDCG -/
+
+theorem insPairDesc_values (x : Nat × Q) (l : List (Nat × Q)) :
+    seriesValues (insPairDesc x l) = insDesc x.2 (seriesValues l) := by
+  induction l with
+  | nil => rfl
+  | cons y ys ih =>
+    simp only [insPairDesc, seriesValues, List.map_cons, insDesc]
+    split
+    · rfl
+    · simp only [List.map_cons]; rw [← seriesValues, ih]; rfl
+
+/-- the values of a series sorted by decreasing value are the sorted values -/
+theorem seriesSortDesc_values (S : List (Nat × Q)) : seriesValues (seriesSortDesc S) = sortDesc (S.map (·.2)) := by
+  induction S with
+  | nil => rfl
+  | cons x xs ih => simp only [seriesSortDesc, insPairDesc_values, ih, List.map_cons, sortDesc]
+
+theorem seriesNLargest_values (k : Nat) (S : List (Nat × Q)) : seriesValues (seriesNLargest k S) = (sortDesc (S.map (·.2))).take k := by
+  have h := seriesSortDesc_values S
+  unfold seriesValues at h
+  unfold seriesNLargest seriesValues
+  rw [List.map_take, h]
+
+theorem maskAssign_zeros (items : List Nat) (T : List (Nat × Q)) :
+    maskAssign (zerosLike items) (items.map (isRel T)) 1 = items.map (fun i => match gainOf T i with | some _ => 1 | none => 0) := by
+  unfold maskAssign zerosLike
+  induction items with
+  | nil => rfl
+  | cons i is ih =>
+    simp only [List.map_cons, List.zipWith_cons_cons, ih]
+    congr 1
+    unfold isRel
+    cases gainOf T i <;> simp
+
+/-- **C06 (nDCG, binary and graded):** the realised DCG of the truncated list over the DCG of the ideal list — `min(|test|, k)` ones for
+    binary gains, the `k` largest gains in decreasing order for graded ones.  (`k = 0` is excluded: the code's `if self.k` treats it
+    as "no cut-off" for the ideal list while the recommendation list is cut to nothing.) -/
+theorem ndcgT_eq (k : Option Nat) (hk : ∀ kk, k = some kk → 1 ≤ kk) (disc : Nat → Q) (gainGiven : Bool) (L : List Nat) (T : List (Nat × Q)) :
+    ndcgT k disc gainGiven L T = ndcg k disc (!gainGiven) L T := by
+  have hs : ∀ kq : Option Nat, reindex0 T (truncate kq L) = (truncate kq L).map (fun i => match gainOf T i with | some g => g | none => 0) := by
+    intro kq
+    unfold reindex0
+    apply List.map_congr_left
+    intro i _
+    cases gainOf T i <;> rfl
+  cases k with
+  | none =>
+    unfold ndcgT ndcg gainsOf nrelCap
+    cases gainGiven
+    · simp only [Bool.false_eq_true, if_false, Bool.not_false, if_true, maskAssign_zeros] <;> rfl
+    · simp only [if_true, Bool.not_true, Bool.false_eq_true, if_false, hs, seriesSortDesc_values] <;> rfl
+  | some kk =>
+    have h1 := hk kk rfl
+    have h0 : kk ≠ 0 := by omega
+    unfold ndcgT ndcg gainsOf nrelCap
+    cases gainGiven
+    · simp only [Bool.false_eq_true, if_false, Bool.not_false, if_true, maskAssign_zeros, h0, ne_eq, not_false_eq_true, true_and] <;> rfl
+    · simp only [if_true, Bool.not_true, Bool.false_eq_true, if_false, hs, seriesNLargest_values, h0, ne_eq, not_false_eq_true] <;> rfl
+
 end LK.RankOps
